@@ -42,6 +42,28 @@ pub struct RealCfg {
     /// blank lines after the last record
     #[serde(default)]
     pub trailing_blank: u8,
+    /// the source fails when it is asked for the byte at (position mapped onto 0..=len, error kind selector,
+    /// persistent: every later call fails too)
+    #[serde(default)]
+    pub io_fault: Option<(u16, u8, bool)>,
+}
+
+/// (byte position, kind selector, persistent)
+pub type Fault = Option<(usize, u8, bool)>;
+
+pub const FAULT_KINDS: [std::io::ErrorKind; 6] = [
+    std::io::ErrorKind::Other,
+    std::io::ErrorKind::WouldBlock,
+    std::io::ErrorKind::TimedOut,
+    std::io::ErrorKind::PermissionDenied,
+    std::io::ErrorKind::UnexpectedEof,
+    std::io::ErrorKind::InvalidData,
+];
+
+impl RealCfg {
+    pub fn fault(&self, doc_len: usize) -> Fault {
+        self.io_fault.map(|(p, k, sticky)| (((p as usize) * (doc_len + 1)) >> 16, k, sticky))
+    }
 }
 
 /// `DoubleUntil(t)` with a guard: a policy answer that does not grow would make the reader thread spin forever
@@ -67,12 +89,39 @@ pub struct Chunked {
     chunk: usize,
     /// source position, visible to the consumer side (reader lead, C16)
     progress: Arc<std::sync::atomic::AtomicUsize>,
+    fault: Fault,
+    fired: bool,
+    polls: usize,
+    /// true for sources read inside a scheduled execution (they yield to the scheduler when they fail)
+    scheduled: bool,
+}
+
+impl Chunked {
+    pub fn new(data: Vec<u8>, chunk: usize, progress: Arc<std::sync::atomic::AtomicUsize>, fault: Fault, scheduled: bool) -> Chunked {
+        Chunked { data, pos: 0, chunk, progress, fault, fired: false, polls: 0, scheduled }
+    }
 }
 impl Read for Chunked {
     fn read(&mut self, buf: &mut [u8]) -> std::io::Result<usize> {
         let mut n = buf.len().min(self.data.len() - self.pos);
         if self.chunk > 0 {
             n = n.min(self.chunk);
+        }
+        if let Some((p, kind, sticky)) = self.fault {
+            if self.pos >= p && (!self.fired || sticky) && !buf.is_empty() {
+                self.fired = true;
+                self.polls += 1;
+                if self.scheduled {
+                    crate::sys::yield_now();
+                }
+                if self.polls > 3000 {
+                    panic!("the source was polled {} times after it had started to fail with {:?}: the reader spins on the error instead of reporting it", self.polls, FAULT_KINDS[kind as usize % FAULT_KINDS.len()]);
+                }
+                return Err(std::io::Error::new(FAULT_KINDS[kind as usize % FAULT_KINDS.len()], "verif-injected-fault"));
+            }
+            if self.pos < p {
+                n = n.min(p - self.pos);
+            }
         }
         buf[..n].copy_from_slice(&self.data[self.pos..self.pos + n]);
         self.pos += n;
@@ -145,8 +194,11 @@ pub fn sequential(c: &RealCfg) -> (Vec<(usize, u64)>, Option<String>) {
     let doc = document(c);
     let mut recs = Vec::new();
     let mut err = None;
+    // (the same source faults as in the parallel run; chunking does not matter for the outcome)
+    let fault = c.fault(doc.len());
+    let src = Chunked::new(doc, 0, Default::default(), fault, false);
     if c.fastq {
-        let mut r = fastq::Reader::with_capacity(&doc[..], c.cap);
+        let mut r = fastq::Reader::with_capacity(src, c.cap);
         while let Some(x) = r.next() {
             match x {
                 Ok(rec) => recs.push(fq_hash(&rec)),
@@ -157,7 +209,7 @@ pub fn sequential(c: &RealCfg) -> (Vec<(usize, u64)>, Option<String>) {
             }
         }
     } else {
-        let mut r = fasta::Reader::with_capacity(&doc[..], c.cap);
+        let mut r = fasta::Reader::with_capacity(src, c.cap);
         while let Some(x) = r.next() {
             match x {
                 Ok(rec) => recs.push(fa_hash(&rec)),
@@ -175,7 +227,8 @@ pub fn sequential(c: &RealCfg) -> (Vec<(usize, u64)>, Option<String>) {
 /// (the reader thread of the parallel functions does exactly that, whatever the schedule)
 pub fn max_batch(c: &RealCfg) -> usize {
     let doc = document(c);
-    let src = Chunked { data: doc, pos: 0, chunk: c.chunk as usize, progress: Default::default() };
+    let fault = c.fault(doc.len());
+    let src = Chunked::new(doc, c.chunk as usize, Default::default(), fault, false);
     let mut m = 0;
     if c.fastq {
         let mut r = fastq::Reader::with_capacity(src, c.cap);
@@ -296,7 +349,7 @@ macro_rules! per_record_apis {
             None
         };
         let res: Result<bool, RealE> = if c.api == 0 {
-            let reader: $rdr = $mk($doc.clone(), c.cap, c.chunk);
+            let reader: $rdr = $mk($doc.clone(), c.cap, c.chunk, c.fault($doc.len()));
             if stop == Some(0) {
                 // "never asks" cannot be expressed with the per-record API: the first record always reaches func
             }
@@ -304,6 +357,7 @@ macro_rules! per_record_apis {
         } else {
             let doc = $doc.clone();
             let (cap, chunk, ri_fails) = (c.cap, c.chunk, c.reader_init_fails);
+            let fault = c.fault(doc.len());
             let di_fail = c.data_init_fail_at.map(|j| j as usize);
             let si_fail = c.rset_init_fail_at.map(|j| j as usize);
             $init::<_, RealE, _, Ri, _, u64, Di, _, usize, Si, _, _, ()>(
@@ -314,7 +368,7 @@ macro_rules! per_record_apis {
                     if ri_fails {
                         Err(Ri)
                     } else {
-                        let r: $rdr = $mk(doc, cap, chunk);
+                        let r: $rdr = $mk(doc, cap, chunk, fault);
                         Ok(r)
                     }
                 },
@@ -355,13 +409,13 @@ thread_local! {
     static PROGRESS: std::cell::RefCell<Arc<std::sync::atomic::AtomicUsize>> = std::cell::RefCell::new(Default::default());
 }
 
-fn mk_fa(doc: Vec<u8>, cap: usize, chunk: u8) -> fasta::Reader<Chunked> {
+fn mk_fa(doc: Vec<u8>, cap: usize, chunk: u8, fault: Fault) -> fasta::Reader<Chunked> {
     let progress = PROGRESS.with(|p| p.borrow().clone());
-    fasta::Reader::with_capacity(Chunked { data: doc, pos: 0, chunk: chunk as usize, progress }, cap)
+    fasta::Reader::with_capacity(Chunked::new(doc, chunk as usize, progress, fault, true), cap)
 }
-fn mk_fq(doc: Vec<u8>, cap: usize, chunk: u8) -> fastq::Reader<Chunked> {
+fn mk_fq(doc: Vec<u8>, cap: usize, chunk: u8, fault: Fault) -> fastq::Reader<Chunked> {
     let progress = PROGRESS.with(|p| p.borrow().clone());
-    fastq::Reader::with_capacity(Chunked { data: doc, pos: 0, chunk: chunk as usize, progress }, cap)
+    fastq::Reader::with_capacity(Chunked::new(doc, chunk as usize, progress, fault, true), cap)
 }
 
 /// (index of the last record, source position after the fill) for every batch of sequential plain set reading,
@@ -369,7 +423,8 @@ fn mk_fq(doc: Vec<u8>, cap: usize, chunk: u8) -> fastq::Reader<Chunked> {
 pub fn sequential_batches(c: &RealCfg) -> (Vec<(usize, usize)>, usize) {
     let doc = document(c);
     let progress: Arc<std::sync::atomic::AtomicUsize> = Default::default();
-    let src = Chunked { data: doc, pos: 0, chunk: c.chunk as usize, progress: progress.clone() };
+    let fault = c.fault(doc.len());
+    let src = Chunked::new(doc, c.chunk as usize, progress.clone(), fault, false);
     let mut v = Vec::new();
     let mut n = 0usize;
     let guard = GuardedDoubleUntil { t: c.policy_t.map_or(1 << 23, |t| t.max(1) as usize) };
@@ -404,7 +459,8 @@ pub fn execute_real(c: &RealCfg, obs: &SharedReal) {
         let progress3 = PROGRESS.with(|p| p.borrow().clone());
         let cons_yields3 = c.consumer_yields;
         if c.fastq {
-            let reader = mk_fq(doc, c.cap, c.chunk);
+            let fault = c.fault(doc.len());
+            let reader = mk_fq(doc, c.cap, c.chunk, fault);
             parallel_records(
                 reader,
                 c.n_threads,
@@ -437,7 +493,8 @@ pub fn execute_real(c: &RealCfg, obs: &SharedReal) {
             .map(|o| o.is_some())
             .map_err(RealE::from)
         } else {
-            let reader = mk_fa(doc, c.cap, c.chunk);
+            let fault = c.fault(doc.len());
+            let reader = mk_fa(doc, c.cap, c.chunk, fault);
             parallel_records(
                 reader,
                 c.n_threads,
@@ -485,7 +542,8 @@ pub fn execute_real(c: &RealCfg, obs: &SharedReal) {
         let progress2 = PROGRESS.with(|p| p.borrow().clone());
         let cons_yields2 = c.consumer_yields;
         if c.fastq {
-            let reader = mk_fq(doc, c.cap, c.chunk).set_policy(GuardedDoubleUntil { t: c.policy_t.map_or(1 << 23, |t| t.max(1) as usize) });
+            let fault = c.fault(doc.len());
+            let reader = mk_fq(doc, c.cap, c.chunk, fault).set_policy(GuardedDoubleUntil { t: c.policy_t.map_or(1 << 23, |t| t.max(1) as usize) });
             read_parallel(
                 reader,
                 c.n_threads,
@@ -536,7 +594,8 @@ pub fn execute_real(c: &RealCfg, obs: &SharedReal) {
                 },
             )
         } else {
-            let reader = mk_fa(doc, c.cap, c.chunk).set_policy(GuardedDoubleUntil { t: c.policy_t.map_or(1 << 23, |t| t.max(1) as usize) });
+            let fault = c.fault(doc.len());
+            let reader = mk_fa(doc, c.cap, c.chunk, fault).set_policy(GuardedDoubleUntil { t: c.policy_t.map_or(1 << 23, |t| t.max(1) as usize) });
             read_parallel(
                 reader,
                 c.n_threads,
@@ -640,7 +699,21 @@ pub fn check_real(c: &RealCfg, o: &RealObs) -> CheckResult {
     if let Some(w) = o.late {
         fail!(format!("real/{}/callback-after-return/{}", f, w), "{} ran after the parallel function had returned", w);
     }
-    let (seq, seq_err) = sequential(c);
+    let (mut seq, seq_err) = sequential(c);
+    let mut clean_err: Option<String> = None;
+    // the text of the injected source error as the readers report it
+    let fault_err: Option<String> = c.io_fault.map(|(_, k, _)| format!("{:?}", fasta::Error::Io(std::io::Error::new(FAULT_KINDS[k as usize % FAULT_KINDS.len()], "verif-injected-fault"))));
+    if c.io_fault.is_some() {
+        // how many records come before a source error depends on how the reads are split and on the buffer size;
+        // what is claimed is that they are leading records of the input: membership is judged against fault-free reading
+        let mut clean = c.clone();
+        clean.io_fault = None;
+        let (s2, e2) = sequential(&clean);
+        seq = s2;
+        // an invalid record in front of the failing position may be reported instead of the source error, depending
+        // on whether the refill that would fail is needed before the record is examined
+        clean_err = e2;
+    }
     let n = seq.len();
     // every record at most once, with its own output, and it is a record of the input
     let mut count = vec![0usize; n];
@@ -707,7 +780,7 @@ pub fn check_real(c: &RealCfg, o: &RealObs) -> CheckResult {
         }
         Err(RealE::Parse(e)) => {
             ensure!(
-                seq_err.as_deref() == Some(e.as_str()),
+                seq_err.as_deref() == Some(e.as_str()) || (c.io_fault.is_some() && (clean_err.as_deref() == Some(e.as_str()) || fault_err.as_deref() == Some(e.as_str()))),
                 format!("real/{}/parse-error-differs-from-sequential", f),
                 "parallel reading reports {}, sequential reading reports {:?}",
                 e,
